@@ -1000,3 +1000,23 @@ def switch_on_operand(b, o, local):
             return False
         p = op_place(d[3]["o"])
     return False
+
+
+def local_scope(F, b, limit=12):
+    """b, its closures, and (recursively) the private helpers of the same file it calls — the code a reader would call
+    "this function": extracting part of it into a private helper does not change the scope."""
+    out, seen, work = [], set(), [b]
+    while work and len(out) < limit:
+        x = work.pop(0)
+        if x.path in seen:
+            continue
+        seen.add(x.path)
+        for body in F.with_closures(x):
+            if body not in out:
+                out.append(body)
+            for c in body.calls:
+                if c.local and c.name in F.bodies:
+                    cb = F.bodies[c.name]
+                    if cb.vis.startswith("Restricted") and cb.file == b.file and cb.path not in seen:
+                        work.append(cb)
+    return out
